@@ -427,10 +427,9 @@ func (w *worker[T, JobType]) goRemoveIdleWorkers() {
 			nodes := w.pool.NodeSlice()
 			// If we have more nodes than our target, close the excess ones
 			for _, node := range nodes[targetIdleWorkers:] {
-				if node.Value.GetLastUsed().Add(interval).Before(time.Now()) &&
-					!(node.Next() == nil && node.Prev() == nil) { // if both nil, it means the node is not in the list and not idle
-					// the dispatcher may have popped the node since the check above:
-					// only the goroutine that unlinks a node owns it
+				if node.Value.GetLastUsed().Add(interval).Before(time.Now()) {
+					// the dispatcher may have popped the node since the snapshot was taken (Remove then
+					// reports false): only the goroutine that unlinks a node owns it
 					if w.pool.Remove(node) {
 						node.Value.Stop()
 						w.pool.Cache.Put(node)
